@@ -320,7 +320,14 @@ def find_closures(masked_body: str):
             b = pe + 1
             while b < n and m[b] in ' \n\t':
                 b += 1
-            # optional `-> T` return type is not used in the repo's closures
+            # optional `-> T` return type: the body is then the block after the type
+            if m[b:b + 2] == '->':
+                k, depth = b + 2, 0
+                while k < n and not (m[k] == '{' and depth == 0):
+                    depth += m[k] in '<(['
+                    depth -= m[k] in '>)]'
+                    k += 1
+                b = k
             if b < n and m[b] == '{':
                 be = match_close(m, b) + 1
             else:
